@@ -47,6 +47,8 @@ def hds_spec(draw, tier="quick", layer=0, geometry=None, version=None):
     first_min = (64 + 4 * bat_entries + 511) // 512
     first_cl = (first_min + cs - 1) // cs + draw(st.sampled_from([0, 0, 1]))
     first = first_cl * cs
+    if not geometry and draw(st.integers(0, 5)) == 0 and (first * 512 - 64) // 4 <= 1 << 16:
+        bat_entries = (first * 512 - 64) // 4  # a table that ends exactly where the first data block begins
     if ncl <= 40:
         alloc_l = [i for i in range(ncl) if draw(st.integers(0, 2)) != 0]
     else:
@@ -102,6 +104,7 @@ def strategy_(draw, tier):
                 # .hds at guest offset 0), a sparse-extent magic or text
                 "head": draw(st.sampled_from([None, None, "hds-v1", "hds-v2", "KDMV", "# Disk DescriptorFile\n"]))}
         spec["requests"] = draw(strat.requests(size_sectors * 512, 1 << 20, count=5))
+        spec["file_style"] = draw(st.sampled_from([None, None, "subdir", "sibling", "nfd", "nfd-hangul"]))
         return spec
     hs, forced = draw(hds_spec(tier))
     spec = dict(hs, kind=kind)
@@ -112,6 +115,10 @@ def strategy_(draw, tier):
         pts += [c * csz, (c + 1) * csz]
     reqs = draw(strat.requests(size, csz, count=6, points=pts, whole_limit=4 << 20))
     spec["via_minimal"] = draw(strat.minimal_handle())
+    if kind != "hds":
+        # how the descriptor names the image file: a bare name, a relative path with a directory part (inside the bundle, or a
+        # sibling bundle), a name in decomposed Unicode form (stored under exactly that name)
+        spec["file_style"] = draw(st.sampled_from([None, None, "subdir", "sibling", "nfd", "nfd-hangul"]))
     if forced:
         reqs.insert(0, [forced[0], min(forced[1], 4 << 20)])
     spec["requests"] = reqs
@@ -202,11 +209,24 @@ def check(spec) -> Outcome:
         hdd_dir = os.path.join(d, "disk.hdd")
         os.mkdir(hdd_dir)
         fname = "disk.hdd.0.{" + bhdd.DEFAULT_TOP + "}.hds"
+        style = spec.get("file_style")
+        if style:
+            out.cls("file-" + style)
+        if style == "subdir":
+            os.mkdir(os.path.join(hdd_dir, "images"))
+            fname = "images/" + fname
+        elif style == "sibling":
+            os.mkdir(os.path.join(d, "base.hdd"))
+            fname = "../base.hdd/" + fname
+        elif style == "nfd":
+            fname = "cafe\u0301 A\u030a " + fname
+        elif style == "nfd-hangul":
+            fname = "\u1112\u1161\u11ab " + fname
         fh.write_to(os.path.join(hdd_dir, fname))
         desc = {"disk_size": size // 512, "storages": [{"start": 0, "end": size // 512, "images": [
             {"guid": bhdd.DEFAULT_TOP, "type": image_type, "file": fname}]}],
             "shots": [{"guid": bhdd.DEFAULT_TOP, "parent": bhdd.NULL_GUID}]}
-        with open(os.path.join(hdd_dir, "DiskDescriptor.xml"), "w") as f:
+        with open(os.path.join(hdd_dir, "DiskDescriptor.xml"), "w", encoding="utf-8") as f:
             f.write(bhdd.descriptor_xml(desc))
         stream, err = lib(lambda: HDD(Path(hdd_dir)).open())
         if err:
